@@ -187,6 +187,9 @@ func (w *ammWorld) tx(op, class string, f func(ctx sdk.Context) (string, error))
 
 // hook runs a block hook on the live context; a panic halts the history (as it halts the chain).
 func (w *ammWorld) hook(op, class string, f func()) {
+	pre := w.dump()
+	snap := w.bankSnapshot(w.ctx)
+	lock := w.app.ClpKeeper.GetRewardsParams(w.ctx).RewardsLockPeriod
 	ans := func() (res string) {
 		defer func() {
 			if r := recover(); r != nil {
@@ -202,6 +205,22 @@ func (w *ammWorld) hook(op, class string, f func()) {
 		return
 	}
 	w.observe(class)
+	// who was paid by the hook: judged by Spec.C18.recipientsOK against the pre-hook provider records
+	after := w.bankSnapshot(w.ctx)
+	keys := make([]string, 0, len(snap))
+	for k := range snap {
+		keys = append(keys, k)
+	}
+	sort.Strings(keys)
+	var sb strings.Builder
+	nch := 0
+	for _, k := range keys {
+		if snap[k] != after[k] {
+			fmt.Fprintf(&sb, " %s %s %s", k, snap[k], after[k])
+			nch++
+		}
+	}
+	w.out.Emit(fmt.Sprintf("chk c18.recipients tag=%s.recipients %s %d %d%s %s", class, class, lock, nch, sb.String(), pre), "true", "chk.recipients", false)
 }
 
 func (w *ammWorld) setHeight(h int64) {
